@@ -44,8 +44,12 @@ type W struct {
 	// CloneDrop (script level): everybody uses a `clone` of the channel object and the handle `new` returned is
 	// dropped; every GCEvery-th operation the fault "the collector runs now" is injected (verifsim.CollectNow). A
 	// channel is closed by close() only, never by the lifetime of one of its handles.
-	CloneDrop bool `json:"clone_and_drop,omitempty"`
-	GCEvery   int  `json:"gc_every,omitempty"` // payload "mutint": how the producer updates its variable after each send
+	// CallForm (script level): how the channel's methods are called: "" directly; "fcc" through first-class callable
+	// closures ($c->send(...)); "cuf" through call_user_func([$c, "send"], …); "dyn" through a method name held in a
+	// variable. All calls of a run go through ONE helper function per method, i.e. one call site sees every channel object.
+	CallForm  string `json:"call_form,omitempty"`
+	CloneDrop bool   `json:"clone_and_drop,omitempty"`
+	GCEvery   int    `json:"gc_every,omitempty"` // payload "mutint": how the producer updates its variable after each send
 	// Nulls (script level): producer 0 also sends the value null, before each of its messages with an even index.
 	// null is a value like any other: it is delivered once, in order; a receiver cannot tell it from "closed and
 	// drained", the model can (the send is recorded as "null:p0-<k>", the receive as null).
@@ -176,6 +180,9 @@ func gen(r *verifsim.Rng, tier string) (any, hx.Sched) {
 		if r.Intn(10) == 0 {
 			w.CloneDrop, w.GCEvery = true, verifsim.Pick(r, []int{1, 2, 3, 7})
 		}
+		if r.Intn(6) == 0 {
+			w.CallForm = verifsim.Pick(r, []string{"fcc", "fcc", "dyn"}) // ("cuf" exists but is not generated: see DESIGN §7.3, call_user_func on a native object)
+		}
 		if r.Intn(8) == 0 {
 			// other constructor forms: no argument, a negative number (a string or float argument is a type error)
 			// (the class treats everything but a non-negative int as "unbuffered")
@@ -270,6 +277,11 @@ func shrink(x any) []any {
 	if w.CloneDrop {
 		c := cp()
 		c.CloneDrop = false
+		out = append(out, c)
+	}
+	if w.CallForm != "" {
+		c := cp()
+		c.CallForm = ""
 		out = append(out, c)
 	}
 	if w.Payload != "" {
